@@ -686,7 +686,7 @@ func c19Plan(tier fw.Tier, seed int64) []fw.Batch {
 	var bs []fw.Batch
 	add := func(fl string, p c19Params, gmp int) {
 		raw, _ := json.Marshal(p)
-		bs = append(bs, fw.Batch{Index: len(bs), Flavour: fl, Params: raw, GOMAXPROCS: gmp, TimeoutS: 1800})
+		bs = append(bs, fw.Batch{Index: len(bs), Flavour: fl, Params: raw, GOMAXPROCS: gmp, TimeoutS: 3600})
 	}
 	// concurrent part first (race flavour, several cores each)
 	for _, cp := range c19ConcPlan(tier, seed) {
